@@ -71,6 +71,14 @@ func (fr *Frame) execInstr(in ssa.Instruction) {
 				f = TFalse
 			}
 			p.Cell.fieldFresh[p.Path[0].Field] = f
+			if p.Cell.fieldReg == nil {
+				p.Cell.fieldReg = map[string]*GVal{}
+			}
+			if v.Reg != nil {
+				p.Cell.fieldReg[p.Path[0].Field] = v
+			} else {
+				delete(p.Cell.fieldReg, p.Path[0].Field)
+			}
 		}
 		fr.store(p, fr.term(v), in.Pos())
 	case *ssa.Slice:
@@ -741,6 +749,11 @@ func (fr *Frame) convert(in *ssa.Convert) *GVal {
 			if es == SBV8 {
 				ex.addFact(Eq(w.SlLen(r), App("gs.len", SInt, x)))
 			}
+			if es == SBV32 {
+				// every element of []rune(s) is a Unicode scalar value (invalid bytes decode to U+FFFD)
+				q := mkBoundVar("q!r", SInt)
+				ex.addFact(mkQuantPat([]*Term{q}, Implies(And(Le(IntLit(0), q), Lt(q, w.SlLen(r))), validRune(Select(w.SlArr(r), q))), Select(w.SlArr(r), q)))
+			}
 			g := res(r)
 			g.Fresh = TTrue
 			// the converted slice is a fresh allocation that may be written: give it a region
@@ -758,6 +771,21 @@ func (fr *Frame) convert(in *ssa.Convert) *GVal {
 			ex.addFact(And(Le(IntLit(0), App("gs.len", SInt, r))))
 			if es == SBV8 {
 				ex.addFact(Eq(w.SlLen(x), App("gs.len", SInt, r)))
+				// []byte(string(b)) has the contents of b (slices are compared by contents in this model)
+				ex.p.DeclareFun("gs.to_"+sortIdent(es), []*Sort{SStr}, si.S)
+				ex.addFact(Eq(App("gs.to_"+sortIdent(es), si.S, r), x))
+			}
+			if es == SBV32 {
+				// []rune(string(x)) has the elements of x when every element is a Unicode scalar value
+				// (other values are replaced by U+FFFD)
+				ex.p.DeclareFun("gs.to_"+sortIdent(es), []*Sort{SStr}, si.S)
+				back := App("gs.to_"+sortIdent(es), si.S, r)
+				q := mkBoundVar("q!r", SInt)
+				allValid := mkQuant("forall", []*Term{q}, Implies(And(Le(IntLit(0), q), Lt(q, w.SlLen(x))), validRune(Select(w.SlArr(x), q))))
+				q2 := mkBoundVar("q!s", SInt)
+				same := mkQuantPat([]*Term{q2}, Implies(And(Le(IntLit(0), q2), Lt(q2, w.SlLen(x))), Eq(Select(w.SlArr(back), q2), Select(w.SlArr(x), q2))), Select(w.SlArr(back), q2))
+				ex.addFact(Implies(allValid, And(Eq(w.SlLen(back), w.SlLen(x)), same)))
+				ex.p.assumptions["string(r) of a rune slice encodes each Unicode scalar value of r in order; []rune(s) decodes them back"] = true
 			}
 			return res(r)
 		}
@@ -995,4 +1023,10 @@ func (fr *Frame) doPanic(in *ssa.Panic) {
 
 func trimPkg(s string) string {
 	return strings.ReplaceAll(s, "github.com/jmespath/go-jmespath.", "")
+}
+
+// validRune: a Unicode scalar value (0..0x10FFFF without the surrogate range)
+func validRune(r *Term) *Term {
+	return And(App("bvsle", SBool, BVLit(0, 32), r), App("bvsle", SBool, r, BVLit(0x10FFFF, 32)),
+		Or(App("bvslt", SBool, r, BVLit(0xD800, 32)), App("bvsgt", SBool, r, BVLit(0xDFFF, 32))))
 }
